@@ -92,7 +92,7 @@ def run(prop, repo, only=None):
     b = [x for x in out if x["kind"] == "benign" and x.get("applied")]
     return {"selftest": {
         "mutants_applied": len(m), "mutants_fired": len([x for x in m if x.get("fired")]),
-        "mutants_missed": [x["patch"] for x in m if x.get("fired") is False],
+        "mutants_missed": [x["patch"].replace("/patch.diff", "") for x in m if x.get("fired") is False],
         "benign_applied": len(b), "benign_silent": len([x for x in b if x.get("fired") is False]),
         "benign_false_alarms": [x["patch"] for x in b if x.get("fired")],
         "not_applicable_patches": [x["patch"] for x in out if not x.get("applied")],
